@@ -97,8 +97,11 @@ structure Params (α : Type) where
   /-- `InnerSolveOptions` -/
   alwaysOverwrite : Bool
   tolerance : α
-  /-- fuel for `backtrack_qub` (the C++ loop has none; it ends because `L` doubles until
-      `L ≥ L_max`, see `Props/C19_Pantr`) -/
+  /-- fuel for `backtrack_qub`, the ONLY inner loop of pantr.tpp (the C++ loop has none; it ends
+      because `L` doubles until `L ≥ L_max`).  `Proofs/PantrFuel.lean: pantr_fuel_suffices` proves over
+      an ordered field that it never runs out when `L_max ≤ L_init·2ᴺ` and `N < qubFuel`
+      (`FuelOK`; e.g. `N = 84` for `L_min = 1e-5`, `L_max = 1e20`), for every stop schedule; the replay
+      driver asserts it on every recorded run. -/
   qubFuel : Nat := 4096
 
 /-- The special values `inf<config_t>` and `NaN<config_t>` the C++ writes (initial `Stats::ε`,
@@ -458,9 +461,13 @@ def iterBody (co : Consts α) (P : Problem α) (dir : Direction D α) (pr : Para
     tick := f.tick, stats := stats, k := s.k + 1, accept := m.accept, Delta := m.Delta, rho := m.rho,
     cbs := cb :: s.cbs, fuelOut := s.fuelOut || m.fuelOut || f.fuelOut }
 
-/-- The main `while (true)` loop; `fuel` bounds the number of passes of the model
-    (`max_iter + 1` suffices: every pass that does not exit advances `k`, and the chain is never
-    `Busy` at `k = max_iter`). -/
+/-- The main `while (true)` loop; `fuel` bounds the number of passes of the model.
+    `max_iter + 1` (what `run` passes) suffices UNCONDITIONALLY — any carrier, any stop schedule:
+    pantr.tpp has no retry loop inside an iteration (one trust-region attempt; a rejected candidate
+    falls back to the forward-backward step) and never `continue`s, so every pass that does not exit
+    advances `k`, and the chain is never `Busy` at `k = max_iter`
+    (`Proofs/PantrInv.lean: mainLoop_exit_at_head`: every return is a head exit; the `Exception` /
+    `fuelOut := true` branch below is unreachable from `run`). -/
 def mainLoop (co : Consts α) (P : Problem α) (dir : Direction D α) (pr : Params α)
     (stop : Nat → Bool) (oot : Bool) (x0 y Sig errz0 : Vec α) : Nat → St α D → Result α D
   | 0, s => { (exitBlock co pr s s.stats.eps .Exception x0 y Sig errz0) with fuelOut := true }
